@@ -767,6 +767,21 @@ impl<'a> World<'a> {
                 let size = self.cfg.resp_sizes[sz as usize % self.cfg.resp_sizes.len()];
                 let mut batch = vec![];
                 let mut desc = vec![];
+                if sz & 0x80 != 0 {
+                    // the batch alternates between the clients (per-client order kept)
+                    let mut rank = std::collections::BTreeMap::new();
+                    let mut keyed: Vec<(usize, usize, Outstanding)> = std::mem::take(&mut self.outstanding)
+                        .into_iter()
+                        .map(|o| {
+                            let r = rank.entry(o.client).or_insert(0usize);
+                            *r += 1;
+                            (*r, o.client, o)
+                        })
+                        .collect();
+                    keyed.sort_by_key(|x| (x.0, x.1));
+                    self.outstanding = keyed.into_iter().map(|x| x.2).collect();
+                }
+                let sz = sz & 0x7f;
                 for o in std::mem::take(&mut self.outstanding) {
                     let (c, k) = (o.client, o.seq);
                     if self.clients[c].closed {
